@@ -1,5 +1,9 @@
 mod errors;
 mod layout_table;
+#[cfg(unic_locale_verif)]
+pub mod verif_layout_table {
+    pub use crate::layout_table::*;
+}
 #[cfg(feature = "likelysubtags")]
 pub mod likelysubtags;
 #[doc(hidden)]
